@@ -12,6 +12,14 @@ EXTRA = {"any": "", "logic": """5. This time do NOT use caching, memoisation, ob
    stronger, an early return that skips a step, a changed evaluation order of two steps - placed in a **rarely
    exercised feature, code path or operand class** that still lies inside the property's "quantified over" domain, so
    that mainstream inputs behave identically. Prefer paths that need a specific *combination* of options or values."""}
+EXTRA["entry"] = """5. This time make the change in an **alternative entry point, option or value class** of the feature rather than in its
+   main path: an older / deprecated API that is still exported, a keyword argument with a non-default value, the callback
+   form of something that also has a context-manager form (or the other way round), an alternate constructor, a dunder
+   method (`__eq__`, `__hash__`, `__len__`, `__iter__`, `__str__`, `__repr__`, `__bytes__`, `__int__`), a property
+   setter, behaviour under a non-default configuration object (hardware config, log config, flavour, timeout, block
+   flag), or a value class the main path rarely meets (zero, negative, maximal, empty, a numpy or bool value, two equal
+   operands, the same object used twice). The default path with ordinary values must behave exactly as before. Do NOT
+   use caching or stale state. The change must still lie inside the property's "quantified over" domain."""
 extra = EXTRA[style]
 props = [json.loads(l) for l in open('/verif/properties.jsonl')]
 only = [x for x in os.environ.get("WAVE_ONLY", "").split(",") if x]
